@@ -200,6 +200,11 @@ def run(rep, tier, seed, replay):
     phases = {}
     res = core.tlc_check('MC_Authz.tla', 'MC_Authz.cfg' if tier == 'quick' else 'MC_Authz_thorough.cfg', timeout=2400,
                          coverage=(tier == 'thorough'))
+    if res.get('zero_cov'):
+        # TLC prints interim coverage dumps during long runs; only the final one counts
+        import re
+        final = res['out'].split('The coverage statistics')[-1]
+        res['zero_cov'] = re.findall(r'^<(\w+) line [^>]*>: 0:0\s*$', final, re.M)
     rep.add_design('MC_Authz', res, expect_ok=False)
     if not res['complete'] and not res['violated']:
         raise core.Inconclusive('design check did not complete: %s' % res['out'][-1500:])
